@@ -23,6 +23,7 @@ func TestC09(t *testing.T) {
 // recalculation blocks, their ids and the id counter must survive restarts (a later declaration gets
 // the same id on both nodes).
 func TestC09CandidateLimit(t *testing.T) {
+	defer checksDividedBy(8)() // a block of a 100-candidate world costs ten times an ordinary one
 	rapid.Check(t, func(t *rapid.T) { c09Case(t, "TestC09CandidateLimit", true) })
 }
 
